@@ -118,23 +118,37 @@ structure LeafSt where
   changed : Bool := false
   applied : List (Nat × MaskCfg) := []
 
-/-- one leaf through the mask list; `el` says which masks the field lists leave for the leaf,
-    `value` is the leaf's original value (match rules look at it, not at the running value);
+/-- one mask on a leaf; `el` says which masks the field lists leave for the leaf, `value` is the
+    leaf's original value (match rules look at it, not at the running value);
     `none`: the oracle table has no row for a value that is asked for -/
+def leafStep (el : Nat → MaskCfg → Bool) (re : Oracle) (value : Bytes) (i : Nat) (m : MaskCfg)
+    (s : LeafSt) : Option LeafSt :=
+  if !el i m then some s
+  else if !(m.use && checkMatchRules m value) then some s
+  else if m.hasRe && !m.groups.isEmpty then
+    match re i s.cur with
+    | none => none
+    | some idx =>
+      if idx.isEmpty then some s
+      else some { cur := maskedValue m idx s.cur, changed := true, applied := s.applied ++ [(i, m)] }
+  else some { s with applied := s.applied ++ [(i, m)] }
+
+/-- one leaf through the mask list, each mask on the result of the previous one -/
 def leafLoop (el : Nat → MaskCfg → Bool) (re : Oracle) (value : Bytes) :
     Nat → List MaskCfg → LeafSt → Option LeafSt
   | _, [], s => some s
   | i, m :: ms, s =>
-    if !el i m then leafLoop el re value (i + 1) ms s
-    else if !(m.use && checkMatchRules m value) then leafLoop el re value (i + 1) ms s
-    else if m.hasRe && !m.groups.isEmpty then
-      match re i s.cur with
-      | none => none
-      | some idx =>
-        if idx.isEmpty then leafLoop el re value (i + 1) ms s
-        else leafLoop el re value (i + 1) ms
-          { cur := maskedValue m idx s.cur, changed := true, applied := s.applied ++ [(i, m)] }
-    else leafLoop el re value (i + 1) ms { s with applied := s.applied ++ [(i, m)] }
+    match leafStep el re value i m s with
+    | none => none
+    | some s' => leafLoop el re value (i + 1) ms s'
+
+/-- the `applied_field` writes the applied masks cause, in order -/
+def marks (ap : List (Nat × MaskCfg)) : List (Bytes × Bytes) :=
+  ap.filterMap (fun p => if p.2.appliedField.isEmpty then none else some (p.2.appliedField, p.2.appliedValue))
+
+/-- the per-mask metric counters after the applied masks -/
+def bumps (counts : List Nat) (ap : List (Nat × MaskCfg)) : List Nat :=
+  ap.foldl (fun cs p => if p.2.metric then bump cs p.1 else cs) counts
 
 /-- new value of the leaf (`none`: untouched) and the masks that applied -/
 def specLeaf (el : Nat → MaskCfg → Bool) (masks : List MaskCfg) (re : Oracle) (value : Bytes) :
